@@ -492,7 +492,8 @@ def run(ctx: core.Check, cases=None):
                 "grid U∘c / c∘U over essence x unit x operator x side x numbers (int and float, negative, zero, one); unary minus over "
                 "essence x 9 unit strings x all parameter sets; random parameters with derived units (m/s, m**2, kg*m/s**2, 1/s); "
                 "bare constructs and None as right operand. Non-trivial unless the plain number is the neutral element of the operator; "
-                "distinct on (operator, operands, units).")
+                "distinct on (operator, operands, units). Plus a 'chained' history stream: a second operation (-D, 1-D, D*V, D+D, (-D)+D) applied to the "
+                "result D of a first one (2*U, U+1, U**2, 3/U, U/V, U*V).")
     ctx.assumptions = [
         "arithmetic of the constructs themselves (interval, Frechet p-box, p-box∘number) is a parameter of the model (C01/C02/C06 prove it); "
         "the tie evaluates the model's construct-level call with the real library",
@@ -505,6 +506,7 @@ def run(ctx: core.Check, cases=None):
     core.stub_moments()
     if cases is None:
         cases = gen_cases(ctx)
+        chained_stream(ctx)
     UN, convert_pbox, Pbox, Interval, pint = _mods()
     built = []
     reqs = []
@@ -558,6 +560,75 @@ def run(ctx: core.Check, cases=None):
             ctx.tie_ok()
         else:
             ctx.tie_bad("pbnum", case, short(impl), rep[:200])
+
+
+
+# ---- histories: an operation applied to the RESULT of a previous operation ---------------------------
+def chained_stream(ctx):
+    """U -> D = first(U) -> R = second(D): unit of R by dimensional algebra on exponent vectors, construct of R
+    by the same operations on the constructs.  Derived numbers carry their unit only in the pint quantity, so
+    this catches code that reads a stale attribute of a freshly constructed number."""
+    UN, convert_pbox, Pbox, Interval, pint = _mods()
+    rng = ctx.rng
+    vadd = lambda a, b: tuple(x + y for x, y in zip(a, b))
+    vsub = lambda a, b: tuple(x - y for x, y in zip(a, b))
+    vscale = lambda a, k: tuple(x * k for x in a)
+    firsts = {
+        "mul2": (lambda U, V: 2 * U, lambda c, cv: 2 * c, lambda du, dv: du),
+        "add1": (lambda U, V: U + 1, lambda c, cv: c + 1, lambda du, dv: du),
+        "sq": (lambda U, V: U ** 2, lambda c, cv: c ** 2, lambda du, dv: vscale(du, 2)),
+        "rdiv3": (lambda U, V: 3 / U, lambda c, cv: 3 / c, lambda du, dv: vscale(du, -1)),
+        "divV": (lambda U, V: U / V, lambda c, cv: c / cv, lambda du, dv: vsub(du, dv)),
+        "mulV": (lambda U, V: U * V, lambda c, cv: c * cv, lambda du, dv: vadd(du, dv)),
+    }
+    seconds = {
+        "neg": (lambda D, V: -D, lambda c, cv: -c, lambda dd, dv: dd),
+        "rsub1": (lambda D, V: 1 - D, lambda c, cv: 1 - c, lambda dd, dv: dd),
+        "mulV": (lambda D, V: D * V, lambda c, cv: c * cv, lambda dd, dv: vadd(dd, dv)),
+        "addself": (lambda D, V: D + D, lambda c, cv: c + c, lambda dd, dv: dd),
+        "negadd": (lambda D, V: (-D) + D, lambda c, cv: (-c) + c, lambda dd, dv: dd),
+    }
+    units = [u for u in ALL_UNITS if u is not None][:3] + [None]
+    n = 0
+    for fn, (f1, c1, d1) in firsts.items():
+        for sn, (f2, c2, d2) in seconds.items():
+            for _ in range(ctx.scale(1, 6)):
+                ess = rng.choice(["I", "I", "P"])
+                par = rng.choice([p for sg, p in PARAMS[ess] if sg == "pos"])
+                u, v = rng.choice(units), rng.choice(units)
+                dU = ("U", ess, par, u)
+                dV = ("U", "I", [2, 3], v)
+                case = {"stream": "chained", "first": fn, "second": sn, "U": describe_opd(dU), "V": describe_opd(dV)}
+                ctx.count(("chained", fn, sn, ess, str(par), u, v), True, "chained")
+                n += 1
+                try:
+                    with warnings.catch_warnings():
+                        warnings.simplefilter("ignore")
+                        U, V = build(dU), build(dV)
+                        R = f2(f1(U, V), V)
+                        cu, cv = convert_pbox(U.construct), convert_pbox(V.construct)
+                        ref = c2(c1(cu, cv), cv)
+                    impl = canon(R)
+                    rl, rh = bounds(ref)
+                except BaseException as e:  # noqa
+                    ctx.fail({"op": sn, "form": "chained", "first": fn, "symptom": "raises:" + ekind(e)}, case,
+                             f"{sn} applied to the result of {fn} raises {type(e).__name__}")
+                    continue
+                want = d2(d1(UNITS[u], UNITS[v]), UNITS[v])
+                if impl[1] != "un":
+                    ctx.fail({"op": sn, "form": "chained", "first": fn, "symptom": "not-un"}, case,
+                             f"{sn} applied to the result of {fn} does not return an UncertainNumber")
+                elif not same_dim(impl[4], tuple(float(x) for x in want)):
+                    ctx.fail({"op": sn, "form": "chained", "first": fn, "symptom": "wrong-unit"}, {**case, "unit": list(impl[4]) if not isinstance(impl[4][0], str) else impl[4], "expected": list(want)},
+                             f"unit of {sn}({fn}(U)) has exponents {impl[4]}, dimensional algebra gives {want}")
+                elif not same_bounds(impl[2], impl[3], rl, rh, exact=False, depth=8):
+                    ctx.fail({"op": sn, "form": "chained", "first": fn, "symptom": "wrong-construct"}, case,
+                             f"construct of {sn}({fn}(U)) differs from the same operations on the constructs")
+    return n
+
+
+def describe_opd(d):
+    return {"essence": d[1], "params": d[2], "unit": d[3]}
 
 
 def short_exp(exp):
